@@ -572,6 +572,98 @@ theorem andAll_erase {f : String} {preds : List PExpr} (hf : f ∉ varsUsedL pre
     simp only [andAll]
     exact filterRows_erase (by simpa [varsUsed] using hf) ctx rows
 
+theorem nullRow_erase (f : String) (fs : List String) : eraseKey f (nullRow fs) = nullRow (eraseField f fs) := by
+  induction fs with
+  | nil => rfl
+  | cons x fs ih =>
+    simp only [nullRow, List.map_cons, eraseKey, eraseField, List.filter_cons] at ih ⊢
+    cases (x != f) <;> simp [ih]
+
+theorem nullRow_names (fs : List String) : Row.names (nullRow fs) = fs := by
+  induction fs with
+  | nil => rfl
+  | cons x fs ih =>
+    simp only [nullRow, Row.names, List.map_cons] at ih ⊢
+    rw [ih]
+
+theorem outerJoinRows_erase {f : String} {lk rk : List PExpr} (hl : f ∉ varsUsedL lk) (hr : f ∉ varsUsedL rk)
+    (ctx : Ctx) (il ir : Bool) (lf rf : List String) (ls rs : List Row) :
+    outerJoinRows ctx il ir (eraseField f lf) (eraseField f rf) lk rk (ls.map (eraseKey f)) (rs.map (eraseKey f)) =
+      (outerJoinRows ctx il ir lf rf lk rk ls rs).map (List.map (eraseKey f)) := by
+  simp only [outerJoinRows, keysOk_erase hl, keysOk_erase hr]
+  split
+  · simp only [Option.map_some, List.map_append]
+    have hm : ∀ l r, keyMatch ctx lk rk (eraseKey f l) (eraseKey f r) = keyMatch ctx lk rk l r :=
+      fun l r => keyMatch_erase hl hr ctx l r
+    congr 1
+    congr 1
+    · congr 1
+      · -- the inner part
+        rw [List.map_flatMap, List.flatMap_map]
+        apply joinRows_erase.flatMap_congr''
+        intro l _
+        simp only [List.filter_map, List.map_map]
+        congr 1
+        · funext r
+          simp [Function.comp, eraseKey_append]
+        · apply List.filter_congr
+          intro r _
+          simp [Function.comp, hm]
+      · -- unmatched left records
+        cases il with
+        | false => rfl
+        | true =>
+          simp only [if_true, List.filter_map, List.map_map]
+          congr 1
+          · funext l
+            simp [Function.comp, eraseKey_append, nullRow_erase]
+          · apply List.filter_congr
+            intro l _
+            simp only [Function.comp, List.any_map]
+            congr 2
+            funext r
+            exact hm l r
+    · -- unmatched right records
+      cases ir with
+      | false => rfl
+      | true =>
+        simp only [if_true, List.filter_map, List.map_map]
+        congr 1
+        · funext r
+          simp [Function.comp, eraseKey_append, nullRow_erase]
+        · apply List.filter_congr
+          intro r _
+          simp only [Function.comp, List.any_map]
+          congr 2
+          funext l
+          exact hm l r
+  · rfl
+
+theorem outerJoinRows_names {lf rf : List String} {ctx : Ctx} {il ir : Bool} {lk rk : List PExpr} {ls rs out : List Row}
+    (hl : ∀ r ∈ ls, Row.names r = lf) (hr : ∀ r ∈ rs, Row.names r = rf)
+    (h : outerJoinRows ctx il ir lf rf lk rk ls rs = some out) : ∀ x ∈ out, Row.names x = lf ++ rf := by
+  simp only [outerJoinRows] at h
+  split at h
+  · simp only [Option.some.injEq] at h
+    subst h
+    intro x hx
+    simp only [List.mem_append] at hx
+    rcases hx with (hx | hx) | hx
+    · exact names_of_join hl hr x hx
+    · cases il with
+      | false => simp at hx
+      | true =>
+        simp only [if_true, List.mem_map, List.mem_filter] at hx
+        obtain ⟨l, ⟨hl', _⟩, rfl⟩ := hx
+        rw [names_append, hl l hl', nullRow_names]
+    · cases ir with
+      | false => simp at hx
+      | true =>
+        simp only [if_true, List.mem_map, List.mem_filter] at hx
+        obtain ⟨r, ⟨hr', _⟩, rfl⟩ := hx
+        rw [names_append, hr r hr', nullRow_names]
+  · cases h
+
 /-- the check of the declared schema commutes with the erasure, when the records had the declared names -/
 theorem checked_erase {f : String} {s s' : Schema} (hs : s'.fields = eraseField f s.fields) {o : Option (List Row)}
     (hn : ∀ out, o = some out → ∀ r ∈ out, Row.names r = s.fields) :
